@@ -18,6 +18,7 @@ type hooks = {
   set_perm_list : string -> nat list -> unit;
   bind_null : string -> unit;
   bind_owned : string -> mat -> unit;
+  is_window : string -> bool;
 }
 
 let h : hooks option ref = ref None
@@ -41,6 +42,83 @@ let int_of_z (v : z) : int =
 let argi (s : string) : int = if s = "ret" then !lastret else int_of_string s
 
 let is_null_name (k : hooks) name = name = "-" || name = "NULL"
+
+
+(* ---------------------------------------------------------------------------------------------------
+   Tier B (tools/props/tierb.py): "call tb_<op> args" runs the ALGORITHM-FAITHFUL model of <op> (same
+   arguments as "call <op> args", which runs the specification) with the constants of the build under test.
+   The constants come from the script line  consts K=V ...  (the C side checks the same line against its
+   own macros).  Automatic table parameters are computed as the C code computes them (floating point
+   log2 / round on the cache sizes and the shape); by the theorems they do not influence any result.
+   A model that does not return a result ends the case with  fate TB-DIE | TB-OOB | TB-UB | TB-FUEL |
+   TB-NONE  (None of an option-valued model: "the C call does not return normally"). *)
+exception Tb_err of string
+
+let consts : (string, int) Hashtbl.t = Hashtbl.create 16
+let set_consts (toks : string array) =
+  Array.iteri (fun j t ->
+      if j > 0 then match String.index_opt t '=' with
+        | Some p -> Hashtbl.replace consts (String.sub t 0 p) (int_of_string (String.sub t (p + 1) (String.length t - p - 1)))
+        | None -> failwith ("consts: " ^ t)) toks
+let print_consts () =
+  let l = List.sort compare (Hashtbl.fold (fun k v acc -> (k, v) :: acc) consts []) in
+  Printf.printf "consts%s\n" (String.concat "" (List.map (fun (k, v) -> Printf.sprintf " %s=%d" k v) l))
+let const name = match Hashtbl.find_opt consts name with
+  | Some v -> v
+  | None -> failwith ("build constant " ^ name ^ " not given (no consts line in the script)")
+
+let log2_floor v = let rec go v r = if v <= 1 then r else go (v lsr 1) (r + 1) in go v 0   (* graycode.h:151 *)
+let width_of (x : mat) = (nci x + 63) / 64
+let clamp lo hi v = if v < lo then lo else if v > hi then hi else v
+(* brilliantrussian.c:1094-1103 (k == 0 of _mzd_mul_m4rm), before the clip to 2..8 *)
+let m4rm_auto_k (a : mat) (b : mat) : nat =
+  let l2 = const "L2" and w = max 1 (width_of b) in
+  let k = max 0 (int_of_float (Float.log2 (float (l2 / 64) /. float w))) in
+  let k = if l2 - 64 * (1 lsl k) * w > 64 * (1 lsl (k + 1)) * w - l2 then k + 1 else k in
+  let klog = int_of_float (Float.round (0.75 *. float (log2_floor (min (min (nri a) (nci a)) (nci b))))) in
+  ni (max 0 (if klog < k then klog else k))
+(* graycode.c:75 m4ri_opt_k; brilliantrussian.c:642-646 / 851-855 *)
+let opt_k a b = min (const "MAXKAY") (max 1 (int_of_float (0.75 *. float (1 + log2_floor (min a b)))))
+let m4ri_auto_k nrows ncols =
+  let k = min 7 (opt_k nrows ncols) in
+  if k > 1 && 0.75 *. float (1 lsl k) *. float ncols > float (const "L3") /. 2.0 then k - 1 else k
+(* triangular_russian.c:55-66 / 209-219 *)
+let trsm_auto_k (b : mat) =
+  let k = int_of_float (Float.log2 (float (const "L2" / 8) /. float (max 1 (width_of b)) /. 8.0)) in
+  let klog = int_of_float (Float.round (0.75 *. float (log2_floor (min (nri b) (nci b))))) in
+  clamp 2 8 (if klog < k then klog else k)
+let tri_cfg () = x_mkcfg (ni (const "MUL_BLOCKSIZE")) (n_of_hex (Printf.sprintf "%x" (2 * const "L3"))) (const "SSE2" <> 0)
+(* mzd.c:1815 _mzd_density(A, 32, 0, 0) on an owned matrix *)
+let pc_hex (s : string) =
+  let c = ref 0 in
+  String.iter (fun ch -> let v = hexval ch in c := !c + (v land 1) + ((v lsr 1) land 1) + ((v lsr 2) land 1) + (v lsr 3)) s; !c
+let density32 (a : mat) : float =
+  let nr_ = nri a and nc_ = nci a in
+  let w = width_of a in
+  if w <= 1 then
+    float (List.fold_left (fun acc r -> acc + pc_hex (hex_of_n r)) 0 a.rows) /. (1.0 *. float nc_ *. float nr_)
+  else begin
+    let count = ref 0 and total = ref 0 in
+    List.iter (fun r ->
+        let h = hex_of_n r in
+        let len = String.length h in
+        (* word j of the row (16 hex digits, least significant word last in the string) *)
+        let word j =
+          let hi = len - 16 * j and lo = len - 16 * (j + 1) in
+          if hi <= 0 then "" else String.sub h (max 0 lo) (hi - max 0 lo) in
+        count := !count + pc_hex (word 0); total := !total + 64;
+        let j = ref 1 in
+        while !j < w - 1 do count := !count + pc_hex (word !j); total := !total + 64; j := !j + 32 done;
+        if nc_ mod 64 <> 0 then begin count := !count + pc_hex (word (nc_ / 64)); total := !total + nc_ mod 64 end) a.rows;
+    float !count /. float !total
+  end
+
+let tb_code = function 1 -> "TB-DIE" | 2 -> "TB-OOB" | 3 -> "TB-UB" | 4 -> "TB-FUEL" | _ -> "TB-NONE"
+let tb_res ((c, o) : nat * mat option) : mat = match o with
+  | Some r when int_of_nat c = 0 -> r
+  | _ -> raise (Tb_err (tb_code (int_of_nat c)))
+let tb_opt (o : 'a option) : 'a = match o with Some r -> r | None -> raise (Tb_err "TB-NONE")
+let z_of_int (v : int) : z = if v < 0 then x_z_opp (x_z_of_nat (ni (- v))) else x_z_of_nat (ni v)
 
 let dispatch_ext (op : string) (a : string array) : unit =
   let k = hk () in
@@ -135,17 +213,98 @@ let dispatch_ext (op : string) (a : string array) : unit =
     ok (x_kernel_ok (m 1) (if a.(2) = "NULL" then None else Some (m 2)))
   (* canonical basis of the null space, one vector per ROW (for dumpcanon-style comparisons) *)
   | "kernel_rows" -> k.bind_owned a.(1) (x_kernel_rows (m 2))
-  (* ------------------------------------------------------------------ C01 Tier B *)
+  (* ------------------------------------------------------------------ Tier B: C01 *)
   | "tb_mul_naive" | "tb_addmul_naive" | "tb_mul_m4rm" | "tb_addmul_m4rm" ->
-    (* tb_mul_m4rm RET C A B k blk : the faithful route models of Alg/Mul.v; they must agree with A*B *)
+    (* same arguments as mul_naive / addmul_naive / mul_m4rm / addmul_m4rm: RET C|- A B [k] *)
     let x = m 3 and y = m 4 in
-    let clear = (op = "tb_mul_naive" || op = "tb_mul_m4rm") in
-    let c = if a.(2) = "-" then mzero x.nr y.nc else m 2 in
-    let r = if op = "tb_mul_naive" || op = "tb_addmul_naive" then x_naive_run (ni (i 5)) clear c x y
-      else x_m4rm_run (ni (i 5)) (ni (i 6)) clear c x y in
-    (match r with
-     | None -> raise (Unsupported "route model undefined on this input")
-     | Some r -> k.deliver a.(1) a.(2) r)
+    let blk = ni (const "MUL_BLOCKSIZE") in
+    let copt = if a.(2) = "-" then None else Some (m 2) in
+    let r = match op with
+      | "tb_mul_naive" -> x_tb_mul_naive blk copt x y
+      | "tb_addmul_naive" -> x_tb_addmul_naive blk (m 2) x y
+      | "tb_mul_m4rm" -> x_tb_mul_m4rm blk m4rm_auto_k (ni (i 5)) copt x y
+      | _ -> x_tb_addmul_m4rm blk m4rm_auto_k (ni (i 5)) (m 2) x y in
+    k.deliver a.(1) a.(2) (tb_opt r)
+  | "tb_mul" | "tb_addmul" | "tb_mul_mp" | "tb_addmul_mp" | "tb__addmul" ->
+    (* RET C|- A B cutoff ; A and B the same object = the squaring route *)
+    let x = m 3 and y = m 4 in
+    let blk = ni (const "MUL_BLOCKSIZE") and dflt = ni (const "STRASSEN_MUL_CUTOFF") in
+    let copt = if a.(2) = "-" then None else Some (m 2) in
+    let same = a.(3) = a.(4) in
+    let win = List.exists (fun nm -> nm <> "-" && k.is_window nm) [a.(2); a.(3); a.(4)] in
+    let mp = const "OPENMP" <> 0 in
+    let r = match op with
+      | "tb_mul" -> x_tb_mul blk m4rm_auto_k dflt (z_of_int (i 5)) same win copt x y
+      | "tb_addmul" -> x_tb_addmul blk m4rm_auto_k dflt (z_of_int (i 5)) same win copt x y
+      | "tb__addmul" -> x_tb_addmul_raw blk m4rm_auto_k dflt (ni (i 5)) same win (m 2) x y
+      (* builds without OpenMP: the harness calls mzd_mul / mzd_addmul for these *)
+      | "tb_mul_mp" -> if mp then x_tb_mul_mp blk m4rm_auto_k dflt (z_of_int (i 5)) copt x y
+        else x_tb_mul blk m4rm_auto_k dflt (z_of_int (i 5)) same win copt x y
+      | _ -> if mp then x_tb_addmul_mp blk m4rm_auto_k dflt (z_of_int (i 5)) copt x y
+        else x_tb_addmul blk m4rm_auto_k dflt (z_of_int (i 5)) same win copt x y in
+    k.deliver a.(1) a.(2) (tb_res r)
+  | "tb_djb" ->
+    (* tb_djb RET A V : the compiled program, then W = 0; apply *)
+    let x = m 2 and v = m 3 in
+    let ops = tb_opt (x_tb_djb_compile x) in
+    Printf.printf "djbops %d%s\n" (List.length ops)
+      (String.concat "" (List.map (fun ((t, s), ty) -> Printf.sprintf " %d,%d,%d" (int_of_nat t) (int_of_nat s) (if ty then 1 else 0)) ops));
+    k.bind_owned a.(1) (tb_opt (x_tb_djb_apply ops (mzero x.nr v.nc) v))
+  | "tb_make_table" ->
+    (* tb_make_table M r c k T l0 .. : T and L with arbitrary previous contents *)
+    let x = m 1 and t = m 5 in
+    let kk = i 4 in
+    let l0 = List.init (1 lsl kk) (fun j -> ni (i (6 + j))) in
+    let (t', l') = x_tb_make_table x (ni (i 2)) (ni (i 3)) (ni kk) t.rows l0 in
+    k.set_mat a.(5) { nr = t.nr; nc = t.nc; rows = t' };
+    Printf.printf "ret L%s\n" (String.concat "" (List.map (fun v -> " " ^ string_of_int (int_of_nat v)) l'))
+  (* ------------------------------------------------------------------ Tier B: C02 *)
+  | "tb_echelonize_m4ri" | "tb__echelonize_m4ri" | "tb_echelonize" ->
+    (* echelonize_m4ri A full k | _echelonize_m4ri A full k heuristic threshold | echelonize A full *)
+    let x = m 1 and full = i 2 <> 0 in
+    let kk = if op = "tb_echelonize" then 0 else i 3 in
+    let kk = if kk = 0 then m4ri_auto_k (nri x) (nci x) else kk in
+    let heur, thr = match op with
+      | "tb_echelonize" -> true, float (const "CROSSOVER_E4") /. 10000.0
+      | "tb__echelonize_m4ri" -> i 4 <> 0, float_of_string a.(5)
+      | _ -> false, 1.0 in
+    (* the density oracle: entry 0 is the test before the loop (_mzd_density(A, 32, 0, 0) >= threshold); the loop
+       evaluates it again only once c > 256, on the matrix as reduced so far: not reproduced here *)
+    let o0 = heur && nri x > 0 && nci x > 0 && density32 x >= thr in
+    if heur && not o0 && nci x > 257 then raise (Unsupported "density oracle beyond column 256");
+    let (r, e) = tb_opt (x_tb_hybrid (ni (const "PLE_CUTOFF")) (ni kk) (ni kk) (fun it -> o0 && it = O) full x) in
+    k.set_mat a.(1) e; Printf.printf "ret %d\n" (int_of_nat r)
+  | "tb_echelonize_pluq" ->
+    let (r, e) = x_tb_echelon_pluq (ni (const "PLE_CUTOFF")) (i 2 <> 0) (m 1) in
+    k.set_mat a.(1) e; Printf.printf "ret %d\n" (int_of_nat r)
+  | "tb_top_echelonize_m4ri" ->
+    let x = m 1 in
+    let kk = if i 2 = 0 then m4ri_auto_k (nri x) (nci x) else i 2 in
+    k.set_mat a.(1) (tb_opt (x_tb_top (ni kk) x))
+  (* ------------------------------------------------------------------ Tier B: C04 / C05 *)
+  | "tb_trsm_lower_left" | "tb__trsm_lower_left" | "tb_trsm_upper_left" | "tb__trsm_upper_left" ->
+    let t = m 1 and b = m 2 in
+    if op.[3] <> '_' then begin
+      if nci t <> nri b then die "dims";
+      if nri t <> nci t then die "square" end;
+    let f = if op = "tb_trsm_lower_left" || op = "tb__trsm_lower_left" then x_tb_trsm_lower_left else x_tb_trsm_upper_left in
+    k.set_mat a.(2) (f (tri_cfg ()) (ni (trsm_auto_k b)) (ni (max 0 (i 3))) t b)
+  | "tb_trsm_lower_right" | "tb__trsm_lower_right" | "tb_trsm_upper_right" | "tb__trsm_upper_right" ->
+    let t = m 1 and b = m 2 in
+    if op.[3] <> '_' then begin
+      if nri t <> nci b then die "dims";
+      if nri t <> nci t then die "square" end;
+    let f = if op = "tb_trsm_lower_right" || op = "tb__trsm_lower_right" then x_tb_trsm_lower_right else x_tb_trsm_upper_right in
+    k.set_mat a.(2) (f (tri_cfg ()) (ni (max 0 (i 3))) t b)
+  | "tb_trtri_upper" ->
+    let x = m 1 in
+    k.set_mat a.(1) (tb_opt (x_tb_trtri (tri_cfg ()) (ni (trsm_auto_k x)) x))
+  | "tb_inv_m4ri" ->
+    (* inv_m4ri RET DST A k : the work matrix is n x 2*64*width, echelonised with the automatic k *)
+    let x = m 3 in
+    let kk = m4ri_auto_k (nri x) (2 * 64 * width_of x) in
+    let r = tb_opt (x_tb_inv_m4ri (ni kk) x) in
+    if a.(2) <> "-" then k.set_mat a.(2) (mcopy_into (m 2) r) else k.deliver a.(1) a.(2) r
   (* ------------------------------------------------------------------ C18 *)
   | "io_png" ->     (* io_png n rowhex -> "png <status> <packed> <file> <row>" *)
     let l = x_png_case (ni (i 1)) (n_of_hex a.(2)) in
